@@ -456,4 +456,24 @@ section .text
 		db 0x%3, 0x%2
 %endmacro
 
+;;; Verification hooks (guard ISAL_CRYPTO_VERIF, off by default): the run-time CPU probing
+;;; instructions are routed through harness-provided, register-exact shims so that a test
+;;; harness can present a virtual CPUID/XCR0 to the dispatchers.
+%ifdef ISAL_CRYPTO_VERIF
+%macro cpuid 0
+ %ifndef ISAL_VERIF_CPUID_EXTERN
+  %define ISAL_VERIF_CPUID_EXTERN
+	extern isal_verif_cpuid
+ %endif
+	call	isal_verif_cpuid
+%endmacro
+%macro xgetbv 0
+ %ifndef ISAL_VERIF_XGETBV_EXTERN
+  %define ISAL_VERIF_XGETBV_EXTERN
+	extern isal_verif_xgetbv
+ %endif
+	call	isal_verif_xgetbv
+%endmacro
+%endif ; ISAL_CRYPTO_VERIF
+
 %endif ; ifndef _REG_SIZES_ASM_
